@@ -18,7 +18,7 @@ VERIF = os.path.dirname(os.path.dirname(os.path.dirname(os.path.abspath(__file__
 REPO = os.environ.get("MZSA_REPO", "/repo")
 DRIVER_DIR = os.path.join(VERIF, "mzsa", "driver")
 DRIVER = os.path.join(DRIVER_DIR, "target", "release", "mzfacts")
-CACHE = os.path.join(VERIF, ".cache")
+CACHE = os.path.join(VERIF, ".cache", hashlib.sha256(os.path.abspath(REPO).encode()).hexdigest()[:8])
 
 RELEASE_FLAGS = "-Zmir-opt-level=0 -Awarnings -Cdebug-assertions=off -Coverflow-checks=off"
 DEBUG_FLAGS = "-Zmir-opt-level=0 -Awarnings -Cdebug-assertions=on -Coverflow-checks=on"
@@ -117,7 +117,7 @@ def cache_dir():
         os.makedirs(d, exist_ok=True)
         # keep only the newest key
         for other in os.listdir(CACHE):
-            if other != tree_key():
+            if other != tree_key() and not os.environ.get("MZSA_KEEP_CACHE"):
                 shutil.rmtree(os.path.join(CACHE, other), ignore_errors=True)
     return d
 
